@@ -107,6 +107,7 @@ func rulesC14(w *World, r *Report) {
 	for f := range reach {
 		r.fnSeen(fnName(f))
 	}
+	w.ruleLoopsProgress(r, "C14.R7 every loop on the decode path makes progress", 8, func(fn *ssa.Function) bool { return reach[fn] || reach[rootFn(fn)] })
 	// R1
 	w.ruleIndexGuardsPX(r, "C14.R1 table indices are guarded on both sides", nil)
 
@@ -463,7 +464,9 @@ func (w *World) ruleStreamLoops(r *Report, rule string, reach map[*ssa.Function]
 func rulesC16(w *World, r *Report) {
 	{
 		reach := w.reachPkg(w.extractionRoots()...)
-		w.ruleCountedTraversals(r, "C16.R6 the walks visit every field and element", 2, func(fn *ssa.Function) bool { return reach[fn] || reach[rootFn(fn)] })
+		w.ruleCountedTraversals(r, "C16.R6 the walks visit every field and element", 1, func(fn *ssa.Function) bool { return reach[fn] || reach[rootFn(fn)] })
+		w.ruleConfigTakesEffect(r, "C16.R8 the codec uses the maps it is given", 6)
+		w.ruleLoopsProgress(r, "C16.R7 the loops of the walks make progress", 2, func(fn *ssa.Function) bool { return reach[fn] || reach[rootFn(fn)] })
 	}
 	// R1a: type walk (self-recursive functions over reflect.Type with a map accumulator)
 	nR := 0
@@ -779,6 +782,101 @@ func rulesC16(w *World, r *Report) {
 		}
 	}
 	r.floor("C16.R3 nameMap updates", nP, 3)
+	// R3 converse: every type recorded under a wire name has that wire name in
+	// the name map — a nameMap[_] = w with the same term w in the same function,
+	// written on every path that writes typMap[w] (same block, or a block that
+	// dominates it, or one that every path from it to a return passes).
+	nQ := 0
+	for _, fn := range w.SrcFuncs() {
+		if !building[fn] {
+			continue
+		}
+		f := w.flow(fn)
+		var nameUpd, typUpd []*ssa.MapUpdate
+		for _, b := range fn.Blocks {
+			for _, in := range b.Instrs {
+				if mu, ok := in.(*ssa.MapUpdate); ok {
+					switch typeStr(mu.Map.Type()) {
+					case "map[string]string":
+						nameUpd = append(nameUpd, mu)
+					case "map[string]reflect.Type":
+						typUpd = append(typUpd, mu)
+					}
+				}
+			}
+		}
+		if len(nameUpd) == 0 && len(typUpd) > 0 {
+			// a function that records types only takes part when the maps are built
+			// as a pair somewhere else in the construction: nothing to pair here
+			// unless the name map is in its reach as a parameter / capture
+			hasName := false
+			for _, p := range fn.Params {
+				if typeStr(p.Type()) == "map[string]string" {
+					hasName = true
+				}
+			}
+			for _, fv := range fn.FreeVars {
+				if strings.Contains(typeStr(fv.Type()), "map[string]string") {
+					hasName = true
+				}
+			}
+			if !hasName {
+				continue
+			}
+		}
+		for i, tu := range typUpd {
+			nQ++
+			wk := f.term(tu.Key).Key()
+			ok, how := false, "no nameMap entry with this wire name as its value is written in this function"
+			for _, nu := range nameUpd {
+				if f.term(nu.Value).Key() != wk {
+					continue
+				}
+				a, b := tu.Block(), nu.Block()
+				switch {
+				case a == b || b.Dominates(a):
+					ok = true
+				case a.Dominates(b):
+					// every path from a to a return passes b
+					esc := false
+					seen := map[*ssa.BasicBlock]bool{}
+					var walk func(x *ssa.BasicBlock)
+					walk = func(x *ssa.BasicBlock) {
+						if esc || seen[x] || x == b {
+							return
+						}
+						seen[x] = true
+						if _, isRet := x.Instrs[len(x.Instrs)-1].(*ssa.Return); isRet {
+							esc = true
+							return
+						}
+						for _, s := range x.Succs {
+							walk(s)
+						}
+					}
+					for _, s := range a.Succs {
+						walk(s)
+					}
+					if len(a.Succs) == 0 {
+						esc = true
+					}
+					ok = !esc
+					if esc {
+						how = "the nameMap entry with this wire name is written on some of the paths only"
+					}
+				}
+				if ok {
+					break
+				}
+			}
+			if ok {
+				how = "a nameMap entry whose value is the same term is written on every path that records the type"
+			}
+			r.add("C16.R3 every recorded type has its wire name in the name map", fmt.Sprintf("%s · typMap update #%d", fnName(fn), i+1), w.instrPos(tu), ok,
+				fmt.Sprintf("type recorded under %s: %s", wk, how))
+		}
+	}
+	r.floor("C16.R3 typMap updates beside a name map", nQ, 2)
 	w.ruleExtractionStateless(r, "C16.R5 extraction is a function of its argument")
 	if ev != nil {
 		w.ruleEmptyContainersDescended(r, "C16.R2 absent containers are descended by type", ev)
@@ -921,6 +1019,7 @@ func rulesC09(w *World, r *Report) {
 	w.ruleWrapperForwards(r, "C09.R1 read wrappers forward the decoder", "string")
 	w.ruleWrapperForwards(r, "C09.R1 read wrappers forward the decoder", "binary")
 	w.ruleChunkBuffers(r, "C09.R2 chunk buffers sized per chunk")
+	w.ruleChunkContinuation(r, "C09.R2 only a non-final chunk is followed by another")
 	w.ruleDecodedBytesFresh(r, "C09.R4 a decoded byte array owns its memory")
 	// R3 is generated because the encoder has an N form for a present value
 	c := w.codecs()["string"]
